@@ -121,6 +121,7 @@ def run(prop, tier, selftest_only=False):
             violating.append(v)
         samples.extend(r["samples"])
     rows.sort()
+    hubutil.dump_digests(prop, [(r[0], r[1]) for r in rows])
     evaluations = len(rows)
     nontrivial = [r for r in rows if r[5]]
     distinct_nontrivial = len(set(r[1] for r in nontrivial))
